@@ -364,6 +364,8 @@ def cross_check(n=40, seed=0):
                     sv = w.it.binop(op, sa, sb)
                 except I.PyRaise as e:
                     sv = ("raised", e.kind)
+                except I.OutOfSubset:
+                    continue    # the operator body uses a construct outside the interpreter's subset: its law obligations say so
                 try:
                     nv = (na + nb) if opname == "+" else (na * nb)
                 except Exception as e:  # noqa: BLE001
